@@ -5,6 +5,12 @@ package authgrants
 // readers ReadTargetInfo / ReadResponse / ReadUnreliableProxyID) return a value
 // or an error without panicking, give up at end-of-stream, and allocate memory
 // in proportion to the bytes received (<= 256 KiB + 16 x input length).
+//
+// Every input is handed to the decoder twice: in one piece, and delivered
+// according to a generated pattern (wire.Delivery: one byte at a time, drawn
+// chunk sizes, (0, nil) results, end-of-stream reported with the last bytes);
+// the same oracles hold under every delivery. Enumerations derive the pattern
+// from the input bytes (wire.DeliveryFor).
 
 import (
 	"testing"
@@ -43,6 +49,7 @@ type c11dAg struct {
 	Seed   uint64     `json:"seed"`
 	Base   c18AgB     `json:"base"` // valid message the mutations start from (Base.Muts is ignored)
 	Muts   []wire.Mut `json:"muts"`
+	Dlv    wire.Delivery `json:"dlv"` // second delivery of the same bytes
 }
 
 func (c c11dAg) input() (in []byte, mutated bool) {
@@ -69,14 +76,14 @@ func c11dAgRun(c c11dAg, v *vlib.Verdict) {
 		v.Label("grant=localpf/remotepf")
 	}
 	var err error
-	wire.DecoderCall(v, "authgrants."+name, in, func(st *wire.Stream) { err = c11dRead(c.Reader, st) })
+	wire.DecoderCallBoth(v, "authgrants."+name, in, c.Dlv, func(st *wire.Stream) { err = c11dRead(c.Reader, st) })
 	if v.OK() {
 		v.Label(map[bool]string{true: "returned-value", false: "returned-error"}[err == nil])
 	}
 }
 
 func c11dAgGen(t *rapid.T) c11dAg {
-	c := c11dAg{Raw: -1, Reader: rapid.SampledFrom([]int{0, 0, 0, 1, 1, 1, 2, 2, 3, 4, 5}).Draw(t, "reader"), Seed: rapid.Uint64().Draw(t, "seed")}
+	c := c11dAg{Raw: -1, Reader: rapid.SampledFrom([]int{0, 0, 0, 1, 1, 1, 2, 2, 3, 4, 5}).Draw(t, "reader"), Seed: rapid.Uint64().Draw(t, "seed"), Dlv: wire.DrawDelivery(t)}
 	if rapid.IntRange(0, 3).Draw(t, "raw") == 0 {
 		c.Raw = rapid.SampledFrom([]int{0, 1, 2, 3, 4, 5, 20, 21, 22, 24, 64, 200, 300, 700}).Draw(t, "rawlen")
 		c.B0 = c18EnumGen(t, "b0", []int{1, 2, 3, 4, 0})
@@ -85,6 +92,7 @@ func c11dAgGen(t *rapid.T) c11dAg {
 	}
 	c.Base = c18AgBGen(t)
 	c.Muts, c.Base.Muts = c.Base.Muts, nil
+	c.Base.Base.Dlv = wire.Delivery{} // the C11 case has its own
 	return c
 }
 
@@ -127,7 +135,7 @@ func c11dAgSweepRun(c c11dAgSweep, v *vlib.Verdict) {
 	name := c11dReaders[c.Reader]
 	v.Label(name)
 	v.NonTrivial = len(muts) > 0
-	wire.DecoderCall(v, "authgrants."+name, in, func(st *wire.Stream) { c11dRead(c.Reader, st) })
+	wire.DecoderCallBoth(v, "authgrants."+name, in, wire.DeliveryFor(wire.Hash64(in)), func(st *wire.Stream) { c11dRead(c.Reader, st) })
 }
 
 func TestVerifC11DecAuthgrantSweep(t *testing.T) {
